@@ -281,3 +281,58 @@ Proof.
 Qed.
 
 End Lim.
+
+(* ---------- a decidable monitor for [attempt_path] ----------
+   [mon_steps k a] runs the unbounded-stack interpreter from [a] for at most k steps and checks, at every state,
+   that the pc is an instruction boundary and the grouping stack is two words below its initial size.  It returns
+   the number of steps to the final Stop.  A successful check IS the hypothesis of lim_exec / exec_total, so on a
+   concrete program and input the hypothesis can be discharged by computation (and the harness leg c01-frag
+   reports how often it holds on real programs). *)
+Section Mon.
+Variable e : env.
+Variable p : program.
+
+Definition bnd_b (c : Z) : bool := existsb (fun co => fst co =? c) (cp_dec (codes p)).
+Definition st_good_b (s : vm) : bool := bnd_b (pc s) && (zlen (stack s) + 2 <=? sinit p).
+
+Fixpoint mon_steps (k : nat) (s : vm) : option nat :=
+  match k with
+  | O => None
+  | S k' =>
+      if st_good_b s then
+        match ustep e p s with
+        | Ok (Next s') => match mon_steps k' s' with Some n => Some (S n) | None => None end
+        | Ok (Done _) => Some O
+        | _ => None
+        end
+      else None
+  end.
+
+Lemma bnd_b_sound c : bnd_b c = true -> bnd p c.
+Proof.
+  unfold bnd_b, bnd. intros H. apply existsb_exists in H. destruct H as ([c' op] & Hin & E).
+  cbn [fst] in E. apply Z.eqb_eq in E. subst c'. exists op. exact Hin.
+Qed.
+
+Lemma st_good_b_sound s : st_good_b s = true -> st_good p s.
+Proof.
+  unfold st_good_b, st_good. intros H. apply andb_prop in H. destruct H as [H1 H2].
+  split; [apply bnd_b_sound; exact H1|lia].
+Qed.
+
+Lemma mon_sound : forall k a n, mon_steps k a = Some n -> exists sd sd', attempt_path e p a n sd sd'.
+Proof.
+  induction k as [|k IH]; intros a n H; [discriminate|]. cbn [mon_steps] in H.
+  destruct (st_good_b a) eqn:Eg; [|discriminate]. apply st_good_b_sound in Eg.
+  destruct (ustep e p a) as [[a'|a'|c|w]| | |] eqn:Eu; try discriminate.
+  - destruct (mon_steps k a') as [m|] eqn:Em; [|discriminate]. injection H as <-.
+    destruct (IH a' m Em) as (sd & sd' & Hp & Hn & Hd). exists sd, sd'. split; [|split; [|exact Hd]].
+    + intros s Hs. apply clos_rt_rt1n in Hs. inversion Hs as [|y z Hay Hyz]; subst; [exact Eg|].
+      unfold ustep1 in Hay. rewrite Eu in Hay. injection Hay as <-. apply Hp. apply clos_rt1n_rt. exact Hyz.
+    + econstructor; [exact Eu|exact Hn].
+  - injection H as <-. exists a, a'. split; [|split; [constructor|exact Eu]].
+    intros s Hs. apply clos_rt_rt1n in Hs. inversion Hs as [|y z Hay Hyz]; subst; [exact Eg|].
+    unfold ustep1 in Hay. rewrite Eu in Hay. discriminate.
+Qed.
+
+End Mon.
